@@ -184,7 +184,7 @@ def step_of(trace):
     core = [f for f in trace if not any(w in f for w in FORWARDERS)]
     for i, f in enumerate(core[:3]):
         if ("BoxHeaderLite" in f and "read" in f and i + 1 < len(core) and "build_bmff_tree" in core[i + 1]) or "meta_box_lacks_fullbox_header" in f:
-            return "bmff_tree"
+            return "bmff_tree_in_hash" if any("verify_hash_binding" in x for x in trace) else "bmff_tree"
     t = " < ".join(trace)
     for name, needle in STEPS:
         if needle in t:
@@ -223,14 +223,11 @@ def gen_cases(ctx):
     cases = []
     reads = READ_FIXTURES[:QUICK_READ] if quick else READ_FIXTURES
     srcs = [s for s in c40.SOURCES if s[2] == 0 or not quick] + ([("sample1.wav", "audio/wav", 1)] if quick else [])
-    nfail = 36 if quick else 100000
+    nfail = 36 if quick else 400
     for fx, fmt in reads:
         cases.append({"op": "read", "fixture": fx, "format": fmt})
-    for fx, fmt, _ in srcs:
-        if fx in ("test.avi", "sample1.gif") and nfail > 1000:
-            nf = 1500        # tens of thousands of calls: sample
-        else:
-            nf = nfail
+    for fx, fmt, w in srcs:
+        nf = nfail if w == 0 or quick else 80          # the large fixtures make thousands of calls per run: sample them
         cases.append({"op": "sign", "fixture": fx, "format": fmt, "alg": rng.choice(["ed25519", "es256", "ps256"]), "nf": nf})
     for c in cases:
         c["seeds"] = [rng.randrange(1, 1 << 30) for _ in range(2 if quick else 6)]
@@ -253,11 +250,12 @@ def corpus():
 
 
 def evaluate(ctx, cases):
-    res = c40.run_sharded("c35", cases, shards=14)
+    res = c40.run_sharded("c35", cases, shards=2 if cases and cases[0].get("_retry") else 14)
     stats = {"chunked_runs": 0, "failure_runs": 0, "failure_outcomes": {"err": 0, "not_reached": 0}, "swallowed_by_step": {},
              "failed_call_kinds": {}, "ops_per_case": {}, "formats": {}, "base_states": {}, "sticky_runs": 0}
     distinct = set()
     evals = 0
+    retry = []
     for c in cases:
         r = res[c["id"]]
         tag = f"{c['op']}:{c['fixture']}"
@@ -299,6 +297,10 @@ def evaluate(ctx, cases):
             elif "err" in out:
                 stats["failure_outcomes"]["err"] += 1
             else:
+                if not f.get("trace") and not c.get("_retry"):
+                    # symbol resolution of the backtrace failed (seen under heavy machine load): repeat this one run alone
+                    retry.append(dict(cc, _retry=True, trace=True))
+                    continue
                 step = step_of(f.get("trace") or [])
                 same = out == base
                 st = state_of(out)
@@ -315,6 +317,13 @@ def evaluate(ctx, cases):
                     why = (f"{f['kind']} call #{f['k']} failed ({'sticky' if f['sticky'] else 'once'}) in step [{step}] but the operation returned a value "
                            f"(state {st}, {'same as' if same else 'differs from'} the unfaulted result) instead of an error")
                 ctx.report_violation(cc, why, mi)
+    if retry:
+        for i, c in enumerate(retry):
+            c["id"] = i
+        stats["retried_for_backtrace"] = stats.get("retried_for_backtrace", 0) + len(retry)
+        s2, d2, e2 = evaluate(ctx, retry)
+        for k, v in s2["swallowed_by_step"].items():
+            stats["swallowed_by_step"][k] = stats["swallowed_by_step"].get(k, 0) + v
     return stats, len(distinct), evals
 
 
@@ -433,7 +442,7 @@ def run(ctx):
     ctx.coverage.update({
         "evaluations": evals + nmodel, "distinct_nontrivial": distinct,
         "rule": "each case = one (operation, fixture, format); evaluations = chunked runs (seeded short reads/writes) + failure runs "
-                "(failure injected at the k-th stream call: first 10, last 5 and seeded picks in the quick tier, every k in the thorough tier; "
+                "(failure injected at the k-th stream call: first 10, last 5 and seeded picks in the quick tier, up to 400 calls per case (every k when the run makes fewer) in the thorough tier; "
                 "one in four sticky) + model/reference runs; non-trivial = the failing call was actually reached; distinct by (case, kind, k/seed)",
         "distribution": stats,
         "model_vs_reference_runs": nmodel, "model_vs_reference_disagreements": nbad,
@@ -447,6 +456,6 @@ def search(ctx):
     cases = gen_cases(ctx)
     for i, c in enumerate(cases):
         c["id"] = i
-        c["fail_auto"]["n"] = 200
+        c["fail_auto"]["n"] = 80
     stats, distinct, evals = evaluate(ctx, cases)
     ctx.coverage["search_evaluations"] = evals
